@@ -519,6 +519,9 @@ int SimulateMsp430::put_data(
     return 0;
   }
 
+  // ea is -1 when the destination is the constant generator.
+  ea &= 0xffff;
+
   if (bw == BW_WORD)
   {
     ram_write16(ea, data);
